@@ -74,8 +74,9 @@ theorem builtin_replacement_is_question_mark : ∀ m ∈ mappingTable,
 
 /-! ### The 292 built-in fonts ([F] on the generated table, lifted by [P] lemmas) -/
 
-/-- Glyph count <= glyphs per row x rows, positive character size, atlas file length = bytes per row
-(rows padded to whole bytes) x height. -/
+/-- Glyph count = glyphs per row x rows (equality, not only `<=`: a mapping range that is one character
+short or an atlas with a surplus row fails here; see `FontOK`), positive character size, atlas file
+length = bytes per row (rows padded to whole bytes) x height. -/
 theorem builtin_fonts_atlas_fits : ∀ r ∈ fontTable, FontOK r := fontTable_ok
 
 /-- [P] For every font: a glyph index below `glyphs_per_row * rows` has its cell completely inside
